@@ -174,6 +174,11 @@ def scalar_grid(field):
       vals += [hi, na(hi, -INF), na(hi, INF), hi + 0.1, int(hi)]
     else:
       vals += [1e308, 3, 1000]
+  dflt = DEFAULTS.get(field)
+  if dflt is not None:
+    # wrong-typed values that compare EQUAL to the field's default
+    import decimal, fractions  # pylint: disable=g-import-not-at-top,multiple-imports
+    vals += [decimal.Decimal(str(dflt)), fractions.Fraction(str(dflt)), complex(dflt, 0.0), np.array([dflt]), np.array(dflt), [dflt], str(dflt)]
   return vals
 
 
@@ -322,6 +327,20 @@ def run_case(spec):
     violations.append({'clause': 'base', 'mech': 'param-base-rejected', 'detail': base.describe()})
   else:
     counters['defaults_checked'] += 1
+    # a caller's own subclass (no docstring of its own) validates exactly like the class itself
+    Sub = type('CallerSubclass', (P,), {})
+    for kw_bad in ({'n_test': 0, 'iroas': 1.0}, {'n_test': 14, 'iroas': -1.0}, {'n_test': 14, 'iroas': 1.0, 'sig_level': 1.0},
+                   {'n_test': 14, 'iroas': 1.0, 'budget_range': (2.0, 1.0)}):
+      sb = util.call(lambda: Sub(**kw_bad))
+      counters['subclass_constructions'] += 1
+      if sb.ok:
+        violations.append({'clause': 'reject', 'mech': 'param-subclass-accepts-invalid', 'detail': 'subclass accepted %r' % (kw_bad,)})
+      elif sb.exc_type != 'ValueError':
+        violations.append({'clause': 'reject-type', 'mech': 'param-reject-type:subclass:' + sb.exc_type,
+                           'detail': 'a subclass without a docstring of its own, %r -> %s' % (kw_bad, sb.describe())})
+    sg = util.call(lambda: Sub(**base_kwargs()))
+    if not sg.ok:
+      violations.append({'clause': 'accept', 'mech': 'param-subclass-rejects-valid', 'detail': sg.describe()})
     for f, want in DEFAULTS.items():
       got = getattr(base.value, f)
       if not (got is want or got == want):
